@@ -54,7 +54,7 @@ Definition stream_blob (typ : N) (n : Z) : prog sout :=
       bind (do_op (OCopyOut (Z.to_N n))) (fun r =>
       bind (do_op OWriterErr) (fun e =>
         let written := match r with Ok d => zlen d | _ => 0%Z end in
-        finish written (werr e) (n - written + 2)%Z))
+        finish written (werr e) (wrap64 (n - written + 2))))      (* lr.N + 2 in int64: wraps for n >= 2^63 - 2 *)
     else if typ =? tChunk then Ret (0%Z, SNone, true)
     else finish 0%Z SNone 2%Z.
 
